@@ -63,3 +63,13 @@ def register(claim):
           "Partial: literal lexing, implicit enumerator increment and the LALR parse of minimally parenthesised text are covered by correspondence "
           "and the g++ oracle only. Real/pointer-valued sub-expressions are outside the model.",
           "Lean 4 proof (evaluator refines C++ integer semantics) + extracted operator/precedence facts + differential correspondence with g++ oracle", "DESIGN.md §5 C07")
+    claim("C09",
+          "Lean 4 theorem (mutual structural induction, no bound on depth or length): on EVERY well-nested program of #if/#ifdef/#ifndef/#elif/"
+          "#elifdef/#elifndef/#else/#endif with arbitrary conditions and arbitrary directives inside the groups, interrogate's stack-free skipper "
+          "(process_directive + skip_false_if_block, modelled verbatim) keeps exactly the markers and performs exactly the effects of the nested-group "
+          "semantics: first true condition wins, at most one group, skipped groups have no effect (c09_refines, c09_skipped_no_effect). The dispatch "
+          "tables of both functions are re-extracted on every run and decided by the kernel. parse_file -E is compared with the Lean machine and "
+          "with gcc -E on all small programs and random deep ones.",
+          "How directive lines are found inside skipped text (comments, strings) is outside the model and covered by the gcc comparison only. "
+          "Conditions are the C07 expressions; macro bodies are integer literals or single identifiers.",
+          "Lean 4 proof (refinement of tree semantics by the stack-free machine) + extracted dispatch tables + differential correspondence with gcc oracle", "DESIGN.md §5 C09")
